@@ -16,6 +16,8 @@ pub enum Inspect {
     Call(String, String),
     /// PRINT name(99…) for an existing array: fails with BAD SUBSCRIPT, changes nothing
     BadCell(String),
+    /// DIM name(n…) for an existing array: always refused (REDIM'D ARRAY), changes nothing
+    Redim(String, u64),
 }
 
 #[derive(Clone, Debug, PartialEq, Serialize, Deserialize)]
@@ -73,6 +75,11 @@ fn inspect_text(i: &Inspect, s: &Sess) -> Option<String> {
             let p = s.probe(false);
             p.functions.iter().find(|f| &f.name == name && f.arguments.len() == 1)?;
             Some(format!("PRINT {}({})", name, arg))
+        }
+        Inspect::Redim(name, n) => {
+            let p = s.probe(false);
+            let a = p.arrays.iter().find(|a| &a.name == name)?;
+            Some(format!("DIM {}({})", name, vec![n.to_string(); a.dimensions.len()].join(",")))
         }
         Inspect::BadCell(name) => {
             let p = s.probe(false);
